@@ -50,6 +50,10 @@ Inductive expr :=
 | EDictLit (items : list (expr * expr))
 | EStar (e : expr)                              (* *e as a positional call argument: the items of e are spliced in *)
 | ESorted (e : expr) (x : string) (key : expr)    (* sorted(e, key=lambda x: key); sorted(e) has key = x *)
+| EGenCall (f : string) (elt : expr) (x : string) (names : list string) (it : expr) (cond : expr)
+    (* f(elt for x in it if cond): a call whose ONLY argument is a generator expression (x / names / cond as for EListComp).
+       The generator is consumed LAZILY by f, item by item (Interp.gen_step): all / any stop at the first deciding item
+       and never evaluate the later ones. *)
 | EListComp (elt : expr) (x : string) (names : list string) (it : expr) (cond : expr).
     (* [elt for x in it if cond]  (names = [], cond = True when there is no `if`);
        [elt for a, b in it if cond]  has x = a fresh "$t.." and names = [a; b]: each item is bound to x and
@@ -81,4 +85,8 @@ Inductive stmt :=
     (* try: body / except A: h1 / except (B, C): h2 ...  - the first handler that names the exception runs (a handler
        naming "Exception" / "BaseException" catches every exception); an exception no handler names propagates *)
 | SContinue                                      (* `continue`: ends the current iteration of the enclosing SForC *)
+| SWith (e : expr) (x : string) (body : stmt)
+    (* with e as x: body  (one item, a plain name).  The unit's [ext] is the context manager protocol:
+       ext "$enter" [m] gives the value bound to x; ext "$exit" [m; <value of x at the end>; VNone | VStr <exception>] is
+       called when the block is left; a truthy answer suppresses the exception. *)
 | SForC (x : string) (e : expr) (body : stmt).   (* a `for` whose body contains a `continue` of its own *)
